@@ -67,7 +67,7 @@ def edge256(r):
 
 
 def run(rep, tier, rng):
-    n = 40 if tier == "quick" else 1500
+    n = 40 if tier == "quick" else 500
     common.prepare()
     pr = base.proof_and_report(rep, "C16")
     r = rng.fork("c16")
